@@ -143,7 +143,7 @@ Proof.
 Qed.
 
 (* the candidate strings between two equal-length terms, in increasing order *)
-Definition between (st en : list Z) : list (list Z) :=
+Definition strings_between (st en : list Z) : list (list Z) :=
   map (to_bytes (length st)) (zseq (bval st) (bval en - bval st + 1)).
 
 (* ---------- the loop ---------- *)
@@ -168,12 +168,12 @@ Section Enumerate.
 
   Lemma enum_loop_spec fuel : forall next acc ts, wf_bytes next -> length next = length en ->
     enumerate_loop fuel next en dict acc = Ok ts ->
-    ts = acc ++ filter dict (between next en) /\
+    ts = acc ++ filter dict (strings_between next en) /\
     (bval next <= bval en -> bval en - bval next + 2 <= Z.of_nat fuel).
   Proof.
     induction fuel as [|f IH]; intros next acc ts Hn Hl E; [discriminate|].
     cbn [enumerate_loop] in E. rewrite bytes_le_val in E by assumption.
-    unfold between.
+    unfold strings_between.
     destruct (Z.leb_spec (bval next) (bval en)) as [Hle|Hgt].
     - destruct (increment_bytes_spec next Hn) as (W & L & V).
       pose proof (valB_bound 256 next ltac:(lia) Hn) as B. fold (bval next) in B.
@@ -185,7 +185,7 @@ Section Enumerate.
         destruct (IH _ _ _ W ltac:(rewrite L; exact Hl) E) as (Ets & Hf).
         rewrite zseq_cons by lia. cbn [map filter].
         rewrite to_bytes_of_val by exact Hn.
-        unfold between in Ets. rewrite L, V in Ets.
+        unfold strings_between in Ets. rewrite L, V in Ets.
         replace (bval en - bval next + 1 - 1) with (bval en - (bval next + 1) + 1) by lia.
         assert (Hf1 : (1 <= f)%nat) by (destruct f; [discriminate E | lia]).
         rewrite V in Hf. split; [|lia].
@@ -197,11 +197,11 @@ End Enumerate.
 
 (* ---------- enumerate_spec ---------- *)
 
-Lemma between_in st en t : wf_bytes st -> wf_bytes en -> length st = length en ->
-  (In t (between st en) <->
+Lemma strings_between_in st en t : wf_bytes st -> wf_bytes en -> length st = length en ->
+  (In t (strings_between st en) <->
    length t = length st /\ wf_bytes t /\ bytes_le st t = true /\ bytes_le t en = true).
 Proof.
-  intros Hs He Hl. unfold between. rewrite in_map_iff. split.
+  intros Hs He Hl. unfold strings_between. rewrite in_map_iff. split.
   - intros (x & <- & Hx). apply in_zseq in Hx.
     pose proof (valB_bound 256 en ltac:(lia) He) as Be. fold (bval en) in Be. rewrite <- Hl in Be.
     pose proof (valB_bound 256 st ltac:(lia) Hs) as Bs. fold (bval st) in Bs.
@@ -221,10 +221,10 @@ Proof.
     + apply in_zseq. lia.
 Qed.
 
-Lemma between_sorted st en : wf_bytes st -> wf_bytes en -> length st = length en ->
-  StronglySorted (fun a b => bytes_lt a b = true) (between st en).
+Lemma strings_between_sorted st en : wf_bytes st -> wf_bytes en -> length st = length en ->
+  StronglySorted (fun a b => bytes_lt a b = true) (strings_between st en).
 Proof.
-  intros Hs He Hl. unfold between. set (n := length st).
+  intros Hs He Hl. unfold strings_between. set (n := length st).
   assert (G : forall k a, 0 <= a -> a + Z.of_nat k <= 256 ^ Z.of_nat n ->
             StronglySorted (fun a b => bytes_lt a b = true) (map (to_bytes n) (zseq a (Z.of_nat k)))).
   { induction k as [|k IH]; intros a Ha Hb.
@@ -257,7 +257,7 @@ Qed.
 Lemma enumerate_spec_all fuel r dict ts :
   wf_bytes (tr_start r) -> wf_bytes (tr_end r) -> length (tr_start r) = length (tr_end r) ->
   enumerate_range fuel r dict = Ok ts ->
-  ts = filter dict (between (tr_start r) (tr_end r)) /\
+  ts = filter dict (strings_between (tr_start r) (tr_end r)) /\
   (forall t, In t ts <-> length t = length (tr_start r) /\ wf_bytes t /\
                          bytes_le (tr_start r) t = true /\ bytes_le t (tr_end r) = true /\ dict t = true) /\
   StronglySorted (fun a b => bytes_lt a b = true) ts /\
@@ -266,8 +266,8 @@ Proof.
   intros Hs He Hl E. unfold enumerate_range in E.
   destruct (enum_loop_spec dict (tr_end r) He fuel _ _ _ Hs Hl E) as (Ets & Hf).
   cbn [app] in Ets. subst ts. split; [reflexivity|]. split; [|split].
-  - intros t. rewrite filter_In, (between_in _ _ _ Hs He Hl). tauto.
-  - apply sorted_filter. apply between_sorted; assumption.
+  - intros t. rewrite filter_In, (strings_between_in _ _ _ Hs He Hl). tauto.
+  - apply sorted_filter. apply strings_between_sorted; assumption.
   - exact Hf.
 Qed.
 
